@@ -39,6 +39,17 @@ docstrings below about half of their fields.  The oracle is unchanged (every obj
 and each of its parameters included, validated on its own); CPython's `ast` over the written sources says which classes must
 have a synthesised `__init__` and which fields override an inherited one, and the evidence counts those found in the validated
 documents.  Findings of C18 (content of the synthesised constructor) explain nothing here.
+
+Docstring parser and its options (round 9): ``parsed`` is a member of every docstring of a full dump, so the parser and the options it
+is run with are part of the case of *every* tree (generated, library, namespace, derived): every member of ``griffe.Parser`` - ``auto``
+included - or none, handed over as enumeration member or as string; option sets drawn from the documented options of each parser
+(docs/reference/docstrings.md: the boolean switches of google / numpy / sphinx; for ``auto``: ``method``, ``style_order``, ``default`` in all
+their presence combinations - absent, ``None`` / empty, styles as strings or members - plus switches of any style, which the documentation says
+are passed down to the detected parser); through ``GriffeLoader(docstring_parser=, docstring_options=)``, through ``griffe.load(...)`` and
+- as cases of their own - through the command line (``griffe.main(["dump", "-f", "-d", STYLE, "-D", JSON, "-s", PATH, "-o", FILE, ...])``, the
+document is read back from the output file).  The generated sources carry docstrings of every style and of no recognisable style.  The
+oracle is unchanged: the schema, and "a dump that cannot be produced is a failure" (a command that exits non-zero, writes no / unparsable
+JSON or no entry for the package is such a failure).
 """
 from __future__ import annotations
 
@@ -58,7 +69,9 @@ LEVEL = "exploration"
 ANCHORS = ["encoders.py", "docstrings/models.py"]
 RULE = ("documents = full dumps of: generated rich packages (see C08; static flavour by the visitor, importable flavour by "
         "visitor and inspector), namespace packages over two search paths, stdlib modules/packages, griffe/_griffe; x aliases "
-        "{unresolved, resolved} x docstring parser {none, google, numpy, sphinx}. distinct = digest of (files, package, "
+        "{unresolved, resolved} x docstring parser {none, google, numpy, sphinx, auto} (member or string) x documented option sets "
+        "of the parser (auto: method / style_order / default absent, empty or set, plus switches passed down) x entry point "
+        "{GriffeLoader, griffe.load, command line `dump -f -d -D -s -o`}. distinct = digest of (files, package, "
         "options); non-trivial = the dump has >=3 object kinds, >=1 alias and >=3 expression classes. Every tree lies in a "
         "generated directory layout and is dumped from 7 (library packages: 3-4 existing ones) working directories placed relative to the "
         "package (at / above / inside / beside it, name-prefix and name-extension siblings, symlinks, root, unrelated), "
@@ -84,7 +97,11 @@ REQUIRED_COUNTERS = ["documents_validated", "objects_validated", "static_documen
                      "location_dumps_validated", "top_level_file_module_documents", "synthesised_inits_validated",
                      "synthesised_parameters_validated", "documented_synthesised_parameters_validated", "derived_dataclass_inits_validated",
                      "overridden_dataclass_fields_validated", "properties_with_setter_or_deleter_validated",
-                     "overload_groups_in_validated_sources", "documents_with_merged_stubs"]
+                     "overload_groups_in_validated_sources", "documents_with_merged_stubs", "parsed_docstrings_validated",
+                     "auto_parser_documents", "auto_parser_documents_without_style_hint", "auto_parser_documents_with_style_hint",
+                     "docstrings_parsed_by_auto_without_style_hint", "documents_with_docstring_options",
+                     "documents_loaded_through_griffe_load", "command_line_documents_validated",
+                     "command_line_documents_with_docstyle_and_docopts", "parser_given_as_string_documents"]
 EXHAUSTIVE = {"quick": False, "thorough": False}
 ASSUMPTIONS = ["the working directory exists while dumping (a removed working directory is outside the domain)",
                "directories used as working directories inside a search path or a package are created after loading, so that "
@@ -100,6 +117,16 @@ ID_SECTION_VALUE = "C09-schema-section-value-object"
 ID_TOP_MODULE = "C09-relative-package-filepath-of-top-level-file-module"
 ALL_IDS = [ID_INSPECTED_LINENO, ID_NAMESPACE, ID_SECTION_KIND, ID_SECTION_VALUE, ID_TOP_MODULE, c08.ID_FULL_NS_CWD, c08.ID_FULL_BUILTIN]
 PARSERS = [None, None, "google", "numpy", "sphinx"]
+STYLES = ("google", "numpy", "sphinx")
+# the documented options of each parser (docs/reference/docstrings.md, "Parser options"; sphinx: its one keyword) - all boolean switches
+STYLE_OPTIONS = {
+    "google": ("ignore_init_summary", "trim_doctest_flags", "returns_multiple_items", "returns_named_value", "returns_type_in_property_summary",
+               "receives_multiple_items", "receives_named_value", "warn_unknown_params"),
+    "numpy": ("ignore_init_summary", "trim_doctest_flags", "warn_unknown_params"),
+    "sphinx": ("warn_unknown_params",),
+}
+ALL_SWITCHES = tuple(dict.fromkeys(o for names in STYLE_OPTIONS.values() for o in names))
+AUTO_METHODS = ("heuristics", "max_sections")
 _SCHEMA = None
 
 
@@ -267,10 +294,12 @@ def validate(rec, case: dict, doc: dict) -> tuple[list, bool, str | None, bool]:
     whole_first = next(iter(v.iter_errors(doc)), None)
     rec.count("documents_validated")
     problems: list[c08.Problem] = []
-    n_obj = 0
+    n_obj = n_parsed = 0
     for path, obj in objects(doc):
         n_obj += 1
         record_branches(rec, obj)
+        if isinstance(obj.get("docstring"), dict) and "parsed" in obj["docstring"]:
+            n_parsed += 1
         shallow = {**obj, "members": {}} if "members" in obj else obj
         for err in v.iter_errors(shallow):
             for leaf in leaf_errors(err, shallow):
@@ -286,6 +315,9 @@ def validate(rec, case: dict, doc: dict) -> tuple[list, bool, str | None, bool]:
                     break
     rec.count("objects_validated", n_obj)
     rec.maximum("objects_in_one_document", n_obj)
+    rec.count("parsed_docstrings_validated", n_parsed)
+    if case.get("parser") == "auto" and not has_style_hint(case):
+        rec.count("docstrings_parsed_by_auto_without_style_hint", n_parsed)
     if case.get("kind") == "files":
         record_derived(rec, case, doc)
     if (whole_first is None) != (not problems):
@@ -366,6 +398,189 @@ def _report(rec, case: dict, problems: list, nontrivial: bool, tags: tuple) -> N
             else:
                 rec.fail({**case, "also": fid}, p.what, observed=p.observed, expected=p.expected, finding=fid, nontrivial=False,
                          tags=("secondary",), tried=ALL_IDS)
+
+
+# -- docstring parser, its options, the entry point ---------------------------------------------------------------------
+def gen_switches(rng: random.Random, names: tuple, k: int | None = None) -> dict:
+    picked = rng.sample(names, min(len(names), k if k is not None else rng.randint(1, len(names))))
+    return {n: rng.random() < 0.5 for n in picked}
+
+
+def gen_docstring_config(rng: random.Random) -> dict:
+    """The parser dimension of a case (JSON-able): which parser, handed over how, with which documented options, through which entry point."""
+    parser = rng.choice((None, None, None, "google", "numpy", "sphinx", "auto", "auto", "auto", "auto"))
+    cfg: dict = {"parser": parser, "entry": rng.choice(("loader", "loader", "load"))}
+    if parser is None:
+        if rng.random() < 0.25:        # options without a parser: there is nothing to parse with, `parsed` stays out of the dump
+            cfg["parser_options"] = rng.choice(({}, gen_switches(rng, ALL_SWITCHES, 2)))
+        return cfg
+    cfg["parser_as"] = rng.choice(("member", "string"))
+    if parser != "auto":
+        r = rng.random()
+        if r < 0.55:
+            cfg["parser_options"] = gen_switches(rng, STYLE_OPTIONS[parser])
+        elif r < 0.65:
+            cfg["parser_options"] = {}
+        return cfg
+    opts: dict = {}
+    hint = rng.choice(("absent", "absent", "absent", "empty", "default", "style_order", "both"))
+    if hint == "empty":                 # the hint options are there and say nothing
+        which = rng.choice(("default", "style_order", "both"))
+        if which != "style_order":
+            opts["default"] = None
+        if which != "default":
+            opts["style_order"] = rng.choice(([], None))
+    if hint in ("default", "both"):
+        opts["default"] = rng.choice(STYLES)
+        if hint == "default" and rng.random() < 0.3:
+            opts["style_order"] = rng.choice(([], None))
+    if hint in ("style_order", "both"):
+        opts["style_order"] = rng.sample(STYLES, rng.randint(1, 3))
+        if hint == "style_order" and rng.random() < 0.3:
+            opts["default"] = None
+    if rng.random() < 0.5:
+        opts["method"] = rng.choice(AUTO_METHODS)
+    if rng.random() < 0.4:              # "any other option is passed down to the detected parser, if any"
+        opts.update(gen_switches(rng, ALL_SWITCHES, rng.randint(1, 3)))
+    cfg["options_as"] = rng.choice(("strings", "members"))
+    if opts or rng.random() < 0.5:
+        cfg["parser_options"] = opts
+    return cfg
+
+
+def has_style_hint(case: dict) -> bool:
+    opts = case.get("parser_options") or {}
+    return bool(opts.get("default")) or bool(opts.get("style_order"))
+
+
+def parser_arguments(case: dict) -> dict:
+    """`docstring_parser=` / `docstring_options=` as the case spells them (API entry points)."""
+    import griffe
+
+    kw: dict = {}
+    parser = case.get("parser")
+    if parser:
+        kw["docstring_parser"] = parser if case.get("parser_as") == "string" else griffe.Parser(parser)
+    if case.get("parser_options") is not None:
+        opts = dict(case["parser_options"])
+        if case.get("options_as") == "members":
+            if opts.get("default"):
+                opts["default"] = griffe.Parser(opts["default"])
+            if opts.get("style_order"):
+                opts["style_order"] = [griffe.Parser(x) for x in opts["style_order"]]
+        kw["docstring_options"] = opts
+    return kw
+
+
+def load_tree(case: dict, roots: list[str]):  # noqa: ANN201
+    """Load the tree a case describes through `GriffeLoader` or `griffe.load` (options as in C08, plus the parser dimension)."""
+    import griffe
+
+    agent = case.get("agent", "static")
+    kw = parser_arguments(case)
+    if roots:
+        kw["search_paths"] = roots
+    if agent == "dynamic":
+        kw.update(allow_inspection=True, force_inspection=True)
+    elif agent == "static":
+        kw.update(allow_inspection=False)
+    else:
+        kw.update(allow_inspection=True)
+    if case.get("find_stubs"):
+        kw["find_stubs_package"] = True
+    if case.get("entry") == "load":
+        return griffe.load(case["package"], resolve_aliases=bool(case.get("resolve")), resolve_implicit=bool(case.get("implicit")),
+                           resolve_external=case.get("external", False), **kw)
+    extra = {"find_stubs_package": kw.pop("find_stubs_package")} if "find_stubs_package" in kw else {}
+    loader = griffe.GriffeLoader(**kw)
+    mod = loader.load(case["package"], **extra)
+    if case.get("resolve"):
+        loader.resolve_aliases(implicit=bool(case.get("implicit")), external=case.get("external", False))
+    return mod
+
+
+def command_line(case: dict, roots: list[str], out: str) -> list[str]:
+    """The `griffe dump` command of a case: full dump into a file, same loading options as the API entry points."""
+    long = case.get("flags") == "long"
+    argv = ["dump", case["package"], "--full" if long else "-f", "--output" if long else "-o", out, "-L", "CRITICAL"]
+    for root in roots:
+        argv += ["--search" if long else "-s", root]
+    if case.get("parser"):
+        argv += ["--docstyle" if long else "-d", case["parser"]]
+    if case.get("parser_options") is not None:
+        argv += ["--docopts" if long else "-D", json.dumps(case["parser_options"])]
+    agent = case.get("agent", "static")
+    if agent == "static":
+        argv.append("--no-inspection" if long else "-X")
+    elif agent == "dynamic":
+        argv.append("--force-inspection" if long else "-x")
+    if case.get("find_stubs"):
+        argv.append("--find-stubs-packages" if long else "-B")
+    if case.get("resolve"):
+        argv.append("--resolve-aliases" if long else "-r")
+        if case.get("implicit"):
+            argv.append("--resolve-implicit" if long else "-I")
+        argv.append("--resolve-external" if case.get("external", False) else "--no-resolve-external")
+    return argv
+
+
+def dump_by_command_line(rec, case: dict, mod, roots: list[str], tags: tuple) -> None:  # noqa: ANN001
+    """Run the command of the case in this process, read the document back from the output file and judge it.
+    `mod` (the same tree loaded through the API just before: the loader accepts it) only serves to classify a crash."""
+    import logging
+
+    import griffe
+
+    fd, out = tempfile.mkstemp(prefix="vfc09-cli-", suffix=".json")
+    os.close(fd)
+    os.unlink(out)
+    argv = command_line(case, roots, out)
+    root_logger = logging.getLogger()
+    saved = (root_logger.handlers[:], root_logger.level)
+    problems: list = []
+    doc = None
+    try:
+        try:
+            code = griffe.main(argv)
+        except SystemExit as exc:
+            problems.append(c08.Problem("no full dump at all: the command line was refused", {"argv": argv, "exit": repr(exc.code)},
+                                        "a JSON document that validates against the schema"))
+        except Exception as exc:  # noqa: BLE001
+            rec.count("full_dump_failures")
+            problem = dump_failure(exc, mod, " in `griffe dump`")
+            problem.observed["argv"] = argv
+            problems.append(problem)
+        else:
+            try:
+                with open(out, encoding="utf8") as fh:
+                    data = json.load(fh)
+            except (OSError, ValueError) as exc:
+                data = None
+                problems.append(c08.Problem(f"no full dump at all: `griffe dump -o FILE` left no readable JSON ({type(exc).__name__})",
+                                            {"argv": argv, "exit": code}, "a JSON document that validates against the schema"))
+            if data is not None:
+                doc = data.get(case["package"]) if isinstance(data, dict) else None
+                if code != 0 or not isinstance(doc, dict):
+                    problems.append(c08.Problem("no full dump of the package: `griffe dump` exits non-zero or its output has no entry for it",
+                                                {"argv": argv, "exit": code, "keys": sorted(data)[:5] if isinstance(data, dict) else str(type(data))},
+                                                "exit code 0 and {package: document}"))
+                    doc = doc if isinstance(doc, dict) else None
+    finally:
+        root_logger.handlers[:] = saved[0]
+        root_logger.setLevel(saved[1])
+        if os.path.exists(out):
+            os.unlink(out)
+    nontrivial = False
+    if doc is not None:
+        found, nontrivial, inc, _valid = validate(rec, case, doc)
+        if inc:
+            rec.inconclusive(case, inc)
+            return
+        rec.count("command_line_documents_validated")
+        if case.get("parser") and case.get("parser_options") is not None:
+            rec.count("command_line_documents_with_docstyle_and_docopts")
+        problems.extend(found)
+    _report(rec, case, problems, nontrivial, tags)
 
 
 # -- working directories ----------------------------------------------------------------------------------------------
@@ -684,9 +899,24 @@ def dump_everywhere(rec, case: dict, mod, place: Place, tags: tuple) -> None:  #
 
 def run_case(rec, case: dict) -> None:  # noqa: ANN001, C901
     tags = (f"agent:{case.get('agent', 'static')}", "resolved" if case.get("resolve") else "unresolved", f"source:{case.get('source', '?')}",
-            f"parser:{case.get('parser')}")
+            f"parser:{case.get('parser')}", f"entry:{case.get('entry', 'loader')}")
 
     def loaded() -> None:
+        parser = case.get("parser")
+        rec.count(f"documents_with_parser:{parser}")
+        if parser == "auto":
+            rec.count("auto_parser_documents")
+            rec.count("auto_parser_documents_with_style_hint" if has_style_hint(case) else "auto_parser_documents_without_style_hint")
+            rec.add_to_set("auto_option_shapes", ",".join(f"{k}={'set' if case['parser_options'][k] else 'empty'}" for k in ("method", "style_order", "default")
+                                                         if k in (case.get("parser_options") or {})) or "none")
+        if parser and case.get("parser_as") == "string":
+            rec.count("parser_given_as_string_documents")
+        if case.get("parser_options"):
+            rec.count("documents_with_docstring_options")
+            for k in case["parser_options"]:
+                rec.add_to_set("docstring_options_used", f"{parser}:{k}")
+        if case.get("entry") == "load":
+            rec.count("documents_loaded_through_griffe_load")
         rec.count({"static": "static_documents", "dynamic": "dynamic_documents"}[case.get("agent", "static")])
         if case.get("resolve"):
             rec.count("resolved_documents")
@@ -706,8 +936,9 @@ def run_case(rec, case: dict) -> None:  # noqa: ANN001, C901
             with case_watchdog(300), located(case) as place:
                 if place.enter(case.get("load_from", "parent")) is None:
                     place.enter("parent")
+                spelled = place.spelled_roots(case.get("spelling", "absolute"))
                 try:
-                    mod, _loader = c08.load_tree(case, place.spelled_roots(case.get("spelling", "absolute")))
+                    mod = load_tree({**case, "entry": "loader"} if case.get("entry") == "cli" else case, spelled)
                 except Exception as exc:  # noqa: BLE001
                     refused(exc)
                     return
@@ -717,17 +948,22 @@ def run_case(rec, case: dict) -> None:  # noqa: ANN001, C901
                 rec.count("trees_loaded_from:" + case.get("load_from", "parent"))
                 if place.top_dir is None:
                     rec.count("top_level_file_module_documents")
-                dump_everywhere(rec, case, mod, place, tags)
+                if case.get("entry") == "cli":
+                    dump_by_command_line(rec, case, mod, spelled, tags)
+                else:
+                    dump_everywhere(rec, case, mod, place, tags)
             return
         with case_watchdog(300), c08.materialised(case) as roots:
             try:
-                mod, _loader = c08.load_tree(case, roots)
+                mod = load_tree({**case, "entry": "loader"} if case.get("entry") == "cli" else case, roots)
             except Exception as exc:  # noqa: BLE001
                 refused(exc)
                 return
             loaded()
             place = library_place(mod, case["package"]) if case.get("cwds") else None
-            if place is not None:
+            if case.get("entry") == "cli":
+                dump_by_command_line(rec, case, mod, roots, tags)
+            elif place is not None:
                 dump_everywhere(rec, case, mod, place, tags)
             else:
                 judge(rec, case, mod, tags)
@@ -1156,20 +1392,29 @@ def derived_cases(rng: random.Random, spec: dict, uid: str):  # noqa: ANN201
 def run_shard(spec: dict, rec) -> None:  # noqa: ANN001
     rng = random.Random(spec["seed"])
     where = random.Random(spec["seed"] * 7919 + 17)      # directory layouts and working directories: a stream of their own
+    how = random.Random(spec["seed"] * 15485863 + 29)    # docstring parser, its options, the entry point: a stream of their own
     uid = f"{spec['seed'] % 1000003}"
     validator()
+
+    def both(case: dict, share: float) -> None:
+        """The case through its API entry point and, for a share of the cases, the same tree and options through the command line."""
+        case = {**case, **gen_docstring_config(how)}
+        run_case(rec, case)
+        if how.random() < share:
+            run_case(rec, {**case, "entry": "cli", "flags": how.choice(("short", "long"))})
+
+    cli_share = spec.get("cli_share", 0.2)
     for name in spec["own"]:
-        for resolve, parser in ((False, None), (True, "google")):
-            run_case(rec, {"kind": "named", "source": "own", "package": name, "agent": "static", "resolve": resolve, "implicit": False,
-                           "parser": parser, "cwds": where.sample(NAMED_POSITIONS, 3)})
+        for resolve in (False, True):
+            both({"kind": "named", "source": "own", "package": name, "agent": "static", "resolve": resolve, "implicit": False,
+                  "cwds": where.sample(NAMED_POSITIONS, 3)}, 0.5)
     for name in spec["stdlib"]:
-        run_case(rec, {"kind": "named", "source": "stdlib", "package": name, "agent": "static", "resolve": rng.random() < 0.5,
-                       "implicit": False, "parser": rng.choice([None, None, "google", "numpy", "sphinx"]),
-                       "cwds": where.sample(NAMED_POSITIONS, 4)})
+        both({"kind": "named", "source": "stdlib", "package": name, "agent": "static", "resolve": rng.random() < 0.5,
+              "implicit": False, "cwds": where.sample(NAMED_POSITIONS, 4)}, cli_share)
     for case in generated_cases(rng, spec, uid):
-        run_case(rec, located_case(where, case))
+        both(located_case(where, case), cli_share)
     for case in derived_cases(random.Random(spec["seed"] * 104729 + 5), spec, uid):     # a stream of its own as well
-        run_case(rec, located_case(where, case, others=0))      # these are about content: three working directories each
+        both(located_case(where, case, others=0), cli_share)      # these are about content: three working directories each
 
 
 def run_replay(inp: dict, rec) -> None:  # noqa: ANN001
